@@ -2,6 +2,8 @@ package props
 
 import (
 	"fmt"
+	"go/types"
+	"golang.org/x/tools/go/ssa"
 	"strings"
 
 	"verif/exprlint/core"
@@ -165,3 +167,5 @@ func init() {
 		fmt.Println(n, "templates; problems:", em.Problems)
 	}
 }
+
+func typesPointer(t *ssa.Type) types.Type { return types.NewPointer(t.Type()) }
